@@ -104,6 +104,9 @@ impl SystemCommandStorage
         self.callback = Some(callback);
     }
 
+    #[cfg(feature = "verif_hooks")]
+    pub(crate) fn verif_is_taken(&self) -> bool { self.callback.is_none() }
+
     pub(crate) fn take(&mut self) -> Option<SystemCommandCallback>
     {
         self.callback.take()
